@@ -6,7 +6,7 @@ from .C04 import set_plain
 
 THEOREMS = ['C08_new_key_rejected', 'C08_children_inherit', 'C08_first_stage', 'C08_cmdline_path',
             'C08_override_sets_exactly_that_path', 'C08_override_mistyped_path_is_an_error',
-            'C08_notnew_is_update_without_new_paths', 'C08_notnew_stages_anywhere', 'C08_no_new_path', 'C08_notnew_agrees_with_plain_merge']
+            'C08_notnew_is_update_without_new_paths', 'C08_notnew_stages_anywhere', 'C08_no_new_path', 'C08_notnew_agrees_with_plain_merge', 'C08_no_new_key_without_permission', 'C08_permission_covers_every_node']
 PLAIN = gen.PROFILES['plain']
 
 
